@@ -121,9 +121,18 @@ pub fn main(opts: &Opts) {
         // consecutive batches over disjoint scene sets, then the first set again (pipelined submission)
         batches = vec![vec![1, 2], vec![3, 4], vec![1, 2], vec![3, 4], vec![1, 2]];
     }
+    if opts.get("pattern").map(|p| p == "aaa").unwrap_or(false) {
+        // the same scenes in every batch, submitted back to back (pipelined): what a batch sees of the store is what the
+        // previous batch left, however early the next one is submitted
+        batches = vec![vec![1, 2, 3], vec![1, 2, 3], vec![1, 2, 3], vec![1, 2, 3]];
+    }
     let getter = opts.get("getter").is_some();
     let ctl = Ctl::install();
     ctl.set_delays(seed, opts.u64("delay-us", 500));
+    if opts.u64("slow-voters-us", 0) > 0 {
+        // every voting job starts late: the next batch is submitted long before the jobs of this one touch the store
+        ctl.set_slow_site("v.job.start", opts.u64("slow-voters-us", 0));
+    }
     let (utx, urx) = mpsc::channel();
     let (dtx, drx) = mpsc::channel();
     let ctl2 = ctl.clone();
